@@ -217,7 +217,17 @@ def _trace_one(spec, cfg, trace, idx, env_extra, timeout):
     res["bad_events"] = [int(x) for x in mb.group(1).split(",")] if mb and mb.group(1).strip() else []
     inv = re.search(r"Invariant (\w+) is violated", out)
     res["invariant"] = inv.group(1) if inv else None
-    if not res["ok"] and res["rejected_at"] is None and res["invariant"] is None:
+    if not res["ok"] and res["rejected_at"] is None and res["invariant"] is None and not res["bad_events"]:
+        # TLC could not even evaluate the specification on some event (e.g. an operation returned an encoding on which
+        # the model's operators are undefined: row indices outside the matrix, a sequence shorter than its declared
+        # length).  An event the specification cannot give a meaning to is a rejected event - unless the trace file
+        # itself could not be read, which is a tool error.
+        ls = re.findall(r"^/\\ l = (\d+)", out, re.M)
+        unreadable = ("ndJsonDeserialize" in out) or ("Json" in out and "unsupported JSON" in out) or not ls
+        if ("Error:" in out) and not unreadable:
+            res["rejected_at"] = int(ls[-1])
+            res["eval_error"] = True
+            return res
         sys.stdout.write(out[-3000:])
         raise ToolError(f"TLC failed on trace {trace} without a verdict")
     return res
